@@ -10,7 +10,7 @@ if os.path.exists(HERE + '/seeded/RESULTS.txt'):
             m = re.search(r'violated: (\S+)', l)
             res.setdefault(f[0], []).append('%s %s%s' % (f[1], f[3], (' `' + m.group(1) + '`') if m else ''))
 rows = ['| seed | what the change does (agent\'s own words, abridged) | needs, to manifest | first run | now |', '|---|---|---|---|---|']
-n = blind = 0
+n = blind = still = 0
 for d in sorted(os.listdir(HERE + '/seeded')):
     mp = HERE + '/seeded/%s/meta.json' % d
     if not os.path.exists(mp):
@@ -23,6 +23,7 @@ for d in sorted(os.listdir(HERE + '/seeded')):
     fr = m.get('first_run', '?')
     n += 1
     blind += fr.startswith('detected')
+    still += bool(m.get('still_missed'))
     rows.append('| %s | %s | %s | %s | %s |' % (d, title[:140], m.get('needs_to_manifest', '').replace('|', '/')[:160], fr, '; '.join(res.get(d, ['?']))))
 p = HERE + '/DESIGN.md'
 s = open(p).read()
@@ -33,4 +34,7 @@ else:
     s = s.replace('SEEDTABLE', tab, 1)
 s = re.sub(r'Blind detection at first run: .*? of \S+\.', 'Blind detection at first run: %d of %d.' % (blind, n), s)
 open(p, 'w').write(s)
-print('seeds', n, 'blind', blind)
+s2 = open(p).read()
+s2 = re.sub(r'Still missed today: \d+\.', 'Still missed today: %d.' % still, s2)
+open(p, 'w').write(s2)
+print('seeds', n, 'blind', blind, 'still missed', still)
